@@ -18,6 +18,8 @@ EXTENDS SessionProp, TLC, Json
 
 CONSTANTS MaxReq,
           UDPEnabled,               \* server offers UDP
+          McastEnabled,             \* server offers UDP multicast delivery
+          Protos,                   \* transports requested in SETUP
           HasRecord, HasPlay, HasPause,   \* handler subsets the application implements
           Tracks,                   \* track indexes of the stream / announced description
           MethodSet,                \* methods explored (Methods for everything)
@@ -29,7 +31,7 @@ Methods == {"OPTIONS", "DESCRIBE", "ANNOUNCE", "SETUP", "PLAY", "RECORD", "PAUSE
 VARIABLES st,        \* session object state ("none": no session)
           idKnown,   \* the peer has seen the session id (ANNOUNCE responses do not carry it)
           setupped,  \* tracks set up
-          proto,     \* "none" | "udp" | "tcp"
+          proto,     \* "none" | "udp" | "tcp" | "mcast" (UDP multicast delivery)
           alive,     \* connection still open
           n, hist, beh
 
@@ -57,10 +59,12 @@ InSession(m, track, pr, mode) ==
          ELSE P("ok", "preRecord", FALSE, idKnown, setupped, proto)
     [] m = "SETUP" ->
          IF s0 \in {"play", "record"} THEN Fail400
-         ELSE IF pr = "udp" /\ ~UDPEnabled
+         ELSE IF (pr = "udp" /\ ~UDPEnabled) \/ (pr = "mcast" /\ ~McastEnabled)
               THEN P("e461", s0, FALSE, TRUE, setupped, proto)
          ELSE IF proto # "none" /\ proto # pr THEN Fail400
          ELSE IF s0 \in {"initial", "prePlay"} /\ mode = "record" THEN Fail400
+         ELSE IF s0 = "preRecord" /\ pr = "mcast"             \* nobody records to a multicast group
+              THEN P("e461", s0, FALSE, TRUE, setupped, proto)
          ELSE IF s0 = "preRecord" /\ mode # "record" THEN Fail400
          ELSE IF track \in setupped THEN Fail400
          ELSE P("ok", IF s0 = "preRecord" THEN "preRecord" ELSE "prePlay", FALSE, TRUE,
@@ -99,6 +103,9 @@ Predict(m, sh, track, pr, mode) ==
          ELSE IF sh = "unknown" THEN Unknown ELSE InSession(m, track, pr, mode)
 
 AllSh == {"none", "right", "unknown"}
+ProtosUT == {"udp", "tcp"}
+ProtosAll == {"udp", "tcp", "mcast"}
+ProtosTM == {"tcp", "mcast"}
 MainMethods == {"OPTIONS", "ANNOUNCE", "SETUP", "PLAY", "RECORD", "PAUSE", "TEARDOWN"}
 NoUnknown == {"none", "right"}
 
@@ -114,7 +121,7 @@ Init ==
 
 \* parameters that matter only for SETUP are fixed otherwise, to avoid duplicate behaviours
 Params(m) == IF m = "SETUP"
-             THEN {<<t, p, md>> : t \in Tracks, p \in {"udp", "tcp"}, md \in {"play", "record"}}
+             THEN {<<t, p, md>> : t \in Tracks, p \in Protos, md \in {"play", "record"}}
              ELSE {<<0, "tcp", "play">>}
 
 Request(m, sh, prm) ==
@@ -127,7 +134,7 @@ Request(m, sh, prm) ==
   /\ alive /\ n < MaxReq
   /\ (sh = "right") => idKnown
   \* Level A step as the model predicts it ...
-  /\ Req(m, sh, 1, TRUE, StatusOf(pd.cls), pd.st1, exp, prm[2] = "udp")
+  /\ Req(m, sh, 1, TRUE, StatusOf(pd.cls), pd.st1, exp, prm[2] \in {"udp", "mcast"})
   \* ... followed at once by the session's end when it was torn down (collapsed here;
   \* in real traces SessOpen / SessClose are separate, asynchronous notifications)
   /\ st' = IF ended THEN "none" ELSE pd.st1
@@ -136,7 +143,7 @@ Request(m, sh, prm) ==
   /\ n' = n + 1
   /\ hist' = Append(hist, rec)
   /\ beh' = IF n' = MaxReq \/ pd.close
-            THEN ToJson([ntracks |-> Cardinality(Tracks), udp |-> UDPEnabled, rec |-> HasRecord, play |-> HasPlay, pause |-> HasPause,
+            THEN ToJson([ntracks |-> Cardinality(Tracks), udp |-> UDPEnabled, mcast |-> McastEnabled, rec |-> HasRecord, play |-> HasPlay, pause |-> HasPause,
                          reqs |-> hist'])
             ELSE ""
 
@@ -161,7 +168,7 @@ BImpliesA ==
       (sh = "right" => idKnown) =>
         LET pd == Predict(m, sh, prm[1], prm[2], prm[3])
             exp == IF pd.cls = "ok" /\ m \in MainPath THEN "ok" ELSE "any"
-        IN ENABLED Req(m, sh, 1, TRUE, StatusOf(pd.cls), pd.st1, exp, prm[2] = "udp")
+        IN ENABLED Req(m, sh, 1, TRUE, StatusOf(pd.cls), pd.st1, exp, prm[2] \in {"udp", "mcast"})
 
 \* the two levels agree on the state
 Agreement == (st = "none" /\ state # "none" /\ tornDown) \/ state = st \/ (state = "initial" /\ st = "initial")
